@@ -38,8 +38,9 @@ def examples(tier):
 def strategy(draw, tier="quick"):
     regime = draw(st.sampled_from(REGIMES))
     acyclic = draw(st.integers(0, 3)) == 0
-    m = draw(gen.automaton(regime=regime, acyclic=acyclic, alphabet=draw(st.sampled_from(gen.ALPHABETS)), signed=True))
-    return {"m": m, "cls": draw(st.sampled_from(["base", "field"])), "n": 3 if tier == "quick" else 4}
+    big = draw(st.integers(0, 4)) == 0
+    m = draw(gen.automaton(regime=regime, acyclic=acyclic, alphabet=draw(st.sampled_from(gen.ALPHABETS)), signed=True, max_states=6 if big else 4, max_arcs=12 if big else 8))
+    return {"m": m, "cls": draw(st.sampled_from(["base", "field"])), "n": draw(st.sampled_from([3, 3, 4, 5])) if tier == "quick" else draw(st.sampled_from([4, 5, 6]))}
 
 
 def check(case, ctx):
